@@ -20,7 +20,7 @@ use crate::{
 pub const DEF: PropDef = PropDef {
     id: "C13",
     groups,
-    rule: "generated entry trees (module depth <= 3, groups with custom names, plain / args / types / consts / types x consts benchmarks, raw identifiers, duplicate and non-ASCII names, random registration order) x filter sets built from the tree (0..=5 filters, positive or skip, regex or exact: whole paths, inner-node paths, single components, argument labels, anchored, alternations, .* joins, prefixes, matching nothing, the same string as positive and skip); routes: Divan builder + hook-set positive filters (in-process) and real command lines through divan::main() in a child process; pure level: FilterSet::is_match on generated paths; \
+    rule: "generated entry trees (module depth <= 3, groups with custom names, plain / args / types / consts / types x consts benchmarks, raw identifiers, duplicate and non-ASCII names, random registration order) x filter sets built from the tree (0..=5 filters, positive or skip, regex or exact: whole paths, inner-node paths, single components, argument labels, anchored, alternations, .* joins, prefixes, matching nothing, the same string as positive and skip); routes: Divan builder + hook-set positive filters (in-process) and real command lines through divan::main() in a child process; pure level: FilterSet::is_match on generated paths; the terse listing of every case is judged too (exactly the selected cases), and on the command-line route some skip filters are given through builder calls made before config_with_args(); \
            non-trivial = the filter set selects a strict, non-empty subset of the cases and (a positive and a skip filter overlap on a case, or a filter matches an inner node's path but not a leaf below it, or an argument of a benchmark is dropped while a sibling argument stays); distinct by serialized case.",
     assumptions: &[
         "the registry is filled through the public __private structs exactly as the macros emit them (C12 checks the macros themselves on compiled programs)",
@@ -36,6 +36,11 @@ pub const DEF: PropDef = PropDef {
 pub struct Case {
     pub spec: TwinSpec,
     pub filters: Vec<(bool, bool, String)>,
+    /// CLI route only: bit i set = the i-th skip filter is given through the
+    /// builder (`skip_exact` / `skip_regex`) before `config_with_args()`
+    /// instead of `--skip` on the command line.
+    #[serde(default)]
+    pub builder_skips: u8,
 }
 
 pub type CaseKey = (u32, Option<String>, Option<String>, Option<String>);
@@ -225,6 +230,21 @@ pub fn check_case(c: &Case) -> Verdict {
         Err(e) => return Verdict::Inconclusive(e),
     };
     vensure!(run_list.invocations.is_empty(), "list-runs", "listing invoked {} benchmark bodies", run_list.invocations.len());
+    // The terse listing shows exactly the selected cases, one line each.
+    let cfg_terse = RunCfg { action: "list-terse".into(), ..cfg_test.clone() };
+    if let (Ok(terse), Some(rf)) = (run_in_process(&c.spec, &cfg_terse), RefFilters::new(&c.filters)) {
+        if terse.panic.is_none() {
+            let tree = twinref::build(&c.spec);
+            let cases = twinref::cases(&tree);
+            let expect = multiset(cases.iter().filter(|k| rf.selects(&k.path_str())).map(|k| format!("{}: benchmark", k.path_str())));
+            let got = multiset(terse.stdout.lines().filter(|l| !l.is_empty()).map(|l| l.to_string()));
+            if got != expect {
+                let missing: Vec<_> = expect.iter().filter(|(k, v)| got.get(*k) != Some(v)).map(|(k, _)| k.clone()).collect();
+                let extra: Vec<_> = got.iter().filter(|(k, v)| expect.get(*k) != Some(v)).map(|(k, _)| k.clone()).collect();
+                return Verdict::fail("terse-listed", format!("--list --format terse lacks {missing:?} and shows unexpected {extra:?} for filters {:?}", c.filters));
+            }
+        }
+    }
     match judge_selection(&c.spec, &c.filters, &run_test, Some(&run_list)) {
         Ok((sel, total, nontrivial)) => {
             classify(if sel == 0 { "none" } else if sel == total { "all" } else { "strict-subset" });
@@ -239,24 +259,43 @@ pub fn check_case(c: &Case) -> Verdict {
 pub fn check_cli(c: &Case) -> Verdict {
     // `--exact` is global on the command line.
     let exact = c.filters.first().map(|f| f.1).unwrap_or(false);
-    let filters: Vec<(bool, bool, String)> = c.filters.iter().map(|f| (f.0, exact, f.2.clone())).collect();
+    // Skip filters given through the builder keep their own matching mode.
+    let mut skip_no = 0u32;
+    let mut via_builder: Vec<(bool, String)> = Vec::new();
+    let mut filters: Vec<(bool, bool, String)> = Vec::new();
     let mut args: Vec<String> = vec!["--test".into(), "--include-ignored".into()];
     if exact {
         args.push("--exact".into());
     }
-    for (inclusive, _, pattern) in &filters {
+    for (inclusive, own_exact, pattern) in &c.filters {
         if pattern.starts_with('-') {
             return Verdict::pass(false);
         }
         if *inclusive {
             args.push(pattern.clone());
+            filters.push((true, exact, pattern.clone()));
         } else {
-            args.push("--skip".into());
-            args.push(pattern.clone());
+            let builder = c.builder_skips & (1 << (skip_no % 8)) != 0;
+            skip_no += 1;
+            if builder {
+                if !*own_exact && !twin::regex_lite_ok(pattern) {
+                    return Verdict::Inconclusive("pattern rejected by regex-lite".into());
+                }
+                via_builder.push((*own_exact, pattern.clone()));
+                filters.push((false, *own_exact, pattern.clone()));
+            } else {
+                args.push("--skip".into());
+                args.push(pattern.clone());
+                filters.push((false, exact, pattern.clone()));
+            }
         }
     }
+    let mut env: Vec<(String, String)> = Vec::new();
+    if !via_builder.is_empty() {
+        env.push(("VCHECK_TWIN_BUILDER_SKIPS".into(), serde_json::to_string(&via_builder).unwrap()));
+    }
     let tag = format!("c13-{}", std::process::id());
-    let (run, code, stderr) = match twin::run_child(&c.spec, &args, &[], &tag) {
+    let (run, code, stderr) = match twin::run_child(&c.spec, &args, &env, &tag) {
         Ok(r) => r,
         Err(e) => return Verdict::Inconclusive(e),
     };
@@ -267,18 +306,18 @@ pub fn check_cli(c: &Case) -> Verdict {
     vensure!(code == 0, "cli-exit", "exit code {code}: {stderr}");
     match judge_selection(&c.spec, &filters, &run, None) {
         Ok((sel, total, nontrivial)) => {
-            classify(if sel == 0 { "none" } else if sel == total { "all" } else { "strict-subset" });
+            classify(format!("{}{}", if sel == 0 { "none" } else if sel == total { "all" } else { "strict-subset" }, if via_builder.is_empty() { "" } else { "/builder-skips" }));
             Verdict::pass(nontrivial)
         }
         Err((sig, msg)) if sig == "__inconclusive" => Verdict::Inconclusive(msg),
-        Err((sig, msg)) => Verdict::fail(format!("cli:{sig}"), format!("{msg}\nargs: {args:?}")),
+        Err((sig, msg)) => Verdict::fail(format!("cli:{sig}"), format!("{msg}\nargs: {args:?} builder skips: {via_builder:?}")),
     }
 }
 
 pub fn case() -> impl Strategy<Value = Case> {
     twingen::spec().prop_flat_map(|spec| {
         let f = twingen::filters_for(&spec);
-        (Just(spec), f).prop_map(|(spec, filters)| Case { spec, filters })
+        (Just(spec), f, prop_oneof![1 => Just(0u8), 1 => any::<u8>()]).prop_map(|(spec, filters, builder_skips)| Case { spec, filters, builder_skips })
     })
 }
 
@@ -303,13 +342,13 @@ fn check_pure(c: &PureCase) -> Verdict {
 }
 
 fn groups(g: &mut Groups) {
-    g.prop("twin", 12_000, 300_000, || case(), check_case);
-    g.prop("cli", 800, 10_000, || case(), check_cli);
+    g.prop("twin", 12_000, 600_000, || case(), check_case);
+    g.prop("cli", 800, 20_000, || case(), check_cli);
     let word = || prop_oneof![Just("a".to_string()), Just("b".to_string()), Just("ab".to_string()), Just("c::a".to_string()), Just("c::ab::1".to_string()), Just("x".to_string()), "[abc:]{0,6}"];
     g.prop(
         "filter_set",
         120_000,
-        3_000_000,
+        6_000_000,
         || (proptest::collection::vec((any::<bool>(), any::<bool>(), word()), 0..=8), proptest::collection::vec(word(), 1..=8)).prop_map(|(filters, paths)| PureCase { filters, paths }),
         check_pure,
     );
